@@ -148,6 +148,8 @@ def install(eng):
     eng.fixtures["Prov"] = fx_provider
     eng.fixtures["World"] = world.fx_world
     eng.fixtures["CS"] = fx_cloudsync
+    from . import sqlmodel
+    eng.fixtures["Sqlite"] = sqlmodel.fx_sqlite_storage
 
 
 def _pc(cs, sep="/", alt="\\", win=False):
